@@ -419,6 +419,7 @@ func (e *Executor) execute(ctx context.Context, isRootPlan bool, p *Plan, keys [
 			}
 			return nil
 		})
+		verifYield("execute.subPlanLaunched")
 	}
 
 	if err := g.Wait(); err != nil {
